@@ -68,6 +68,11 @@ fn acct_records(outs: &[OutputData], path: &str) -> BTreeMap<String, (String, u6
 
 /// the C04 oracle for one wallet's active account, right after a successful refresh
 pub fn check_books(w: &World, wname: &str, seed: &str, problems: &mut Vec<(String, String)>) {
+	check_books_opt(w, wname, seed, true, problems)
+}
+
+/// `ledger`: also require confirmed credits - debits == total + locked (a refresh-only claim)
+pub fn check_books_opt(w: &World, wname: &str, seed: &str, ledger: bool, problems: &mut Vec<(String, String)>) {
 	let wal = w.w(wname);
 	let parent: Identifier = wal.with(|b| b.parent_key_id());
 	let ppath = parent.to_bip_32_string();
@@ -141,7 +146,7 @@ pub fn check_books(w: &World, wname: &str, seed: &str, problems: &mut Vec<(Strin
 			));
 		}
 		// (3) ledger equality
-		if *mc == 1 && recorded_live == truth {
+		if ledger && *mc == 1 && recorded_live == truth {
 			let txs: Vec<TxLogEntry> = wal.txs().into_iter().filter(|t| t.parent_key_id == parent && t.confirmed).collect();
 			let credited: u128 = txs.iter().map(|t| t.amount_credited as u128).sum();
 			let debited: u128 = txs.iter().map(|t| t.amount_debited as u128).sum();
@@ -384,7 +389,7 @@ impl Model for M {
 	fn check(&self, _w: &World, _out: &mut StepOut) {}
 
 	fn project(&self, w: &World) -> Value {
-		let opts = ProjOpts { slots: vec![], heights: true };
+		let opts = ProjOpts { slots: vec![], heights: true, canon_ids: true };
 		json!({
 			"A": project_wallet(w.w("A"), &opts),
 			"B": project_wallet(w.w("B"), &opts),
@@ -421,7 +426,7 @@ fn fault_sweep(m: &M, root: &str, tag: &str, path: &[Op], wname: &str) -> (u64, 
 			snap.restore(&dir);
 			let w = World::open(&dir);
 			w.w("A").set_account(&active_label(&w)).unwrap();
-			let before = project_wallet(w.w(wname), &ProjOpts { slots: vec![], heights: true });
+			let before = project_wallet(w.w(wname), &ProjOpts { slots: vec![], heights: true, canon_ids: true });
 			w.node.set_fault(if *persistent { FaultPlan { fail_at: None, fail_from: Some(k) } } else { FaultPlan { fail_at: Some(k), fail_from: None } });
 			let r = catch(|| w.w(wname).refresh());
 			w.node.clear_fault();
@@ -442,7 +447,7 @@ fn fault_sweep(m: &M, root: &str, tag: &str, path: &[Op], wname: &str) -> (u64, 
 				}
 				_ => {}
 			}
-			let mid = project_wallet(w.w(wname), &ProjOpts { slots: vec![], heights: true });
+			let mid = project_wallet(w.w(wname), &ProjOpts { slots: vec![], heights: true, canon_ids: true });
 			let _ = (before, mid);
 			match w.w(wname).refresh() {
 				Ok(true) => {
